@@ -14,15 +14,15 @@ import (
 )
 
 type txnAnchors struct {
-	p                                                           *Prog
-	commit, get, modify, discard, begin, view, update           *ssa.Function
-	readTsFn, newCommitTs, doneRead, doneCommit, hasConflict    *ssa.Function
-	cleanUp, discardStale                                       *ssa.Function
-	hash, keyWithTs, parseTs, parseKey                          *ssa.Function
-	fNextTs, fCommitted, fReadMark, fCommitMark, fWriteLock     *types.Var
-	fReadTs, fReadsFp, fWritesFp, fPending, fDiscarded          *types.Var
-	fReadOnly, fDoneRead, fCtTs, fCtFp, fMemtable               *types.Var
-	missing                                                     []string
+	p                                                        *Prog
+	commit, get, modify, discard, begin, view, update        *ssa.Function
+	readTsFn, newCommitTs, doneRead, doneCommit, hasConflict *ssa.Function
+	cleanUp, discardStale                                    *ssa.Function
+	hash, keyWithTs, parseTs, parseKey                       *ssa.Function
+	fNextTs, fCommitted, fReadMark, fCommitMark, fWriteLock  *types.Var
+	fReadTs, fReadsFp, fWritesFp, fPending, fDiscarded       *types.Var
+	fReadOnly, fDoneRead, fCtTs, fCtFp, fMemtable            *types.Var
+	missing                                                  []string
 }
 
 func (c *Ctx) Txn() *txnAnchors {
@@ -72,7 +72,7 @@ func (c *Ctx) Txn() *txnAnchors {
 	fd(&a.fPending, "", "Txn", "pendingWrites")
 	fd(&a.fDiscarded, "", "Txn", "discarded")
 	fd(&a.fReadOnly, "", "Txn", "readOnly")
-	fd(&a.fDoneRead, "", "Txn", "doneRead")
+	a.fDoneRead = p.Field("", "Txn", "doneRead") // optional: any boolean flag of Txn may make doneRead idempotent
 	fd(&a.fCtTs, "", "committedTxn", "ts")
 	fd(&a.fCtFp, "", "committedTxn", "writesFp")
 	fd(&a.fMemtable, "", "DB", "memtable")
@@ -207,10 +207,10 @@ func init() {
 	register(&Rule{ID: "SNAP.COMMIT", Engine: "E-LOCK+E-DEP", Min: 6,
 		Desc: "newCommitTs: read, increment, commitMark.Begin and the committedTxns record happen in one oracle.Mutex region on the same timestamp; Commit stamps every entry with that timestamp and finishes commitMark only after the append",
 		Run:  runSnapCommit})
-	register(&Rule{ID: "SNAP.GC", Engine: "E-DEP+E-GUARD", Min: 3, Spec: true,
+	register(&Rule{ID: "SNAP.GC", Engine: "E-DEP+E-GUARD", Min: 2, Spec: true,
 		Desc: "discardStaleEntries: the threshold comes from readMark (open readers); versions are deduplicated only at or below it, and the newest one at or below it is the one kept",
 		Run:  runSnapGC})
-	register(&Rule{ID: "SNAP.DONE", Engine: "E-PATH", Min: 4,
+	register(&Rule{ID: "SNAP.DONE", Engine: "E-PATH", Min: 3,
 		Desc: "View/Update defer Discard before running the closure; Discard and doneRead are idempotent (guarded flag, then set) so readMark.Done is sent exactly once per transaction",
 		Run:  runSnapDone})
 	register(&Rule{ID: "SER.SECTION", Engine: "E-LOCK", Min: 3,
@@ -501,6 +501,12 @@ func runSnapGC(c *Ctx, r *RuleRun) {
 		replaces := hasFact(mu, func(cm Cmp) bool {
 			return cm.Op == "true" && cm.Y == nil && isLookupOK(cm.X)
 		})
+		firstSeen := hasFact(mu, func(cm Cmp) bool {
+			return cm.Op == "false" && cm.Y == nil && isLookupOK(cm.X)
+		})
+		if !replaces && !firstSeen {
+			r.Viol(fn, "keep the newest below the watermark", p.Pos(instrPos(mu)), "the candidate kept for a key is overwritten without looking at what is already kept: whichever version comes last in the input (the oldest) survives, readers at the watermark see an older value or a deleted key reappears")
+		}
 		if replaces {
 			newer := hasFact(mu, func(cm Cmp) bool {
 				return cm.Op == ">" && cm.Y != nil && entryTs(cm.X) && entryTs(cm.Y) && cm.X != cm.Y
@@ -560,8 +566,18 @@ func runSnapDone(c *Ctx, r *RuleRun) {
 		r.Check(recvOK && before, fn, "defer Discard", p.Pos(instrPos(def)), "deferred on the transaction returned by Begin, before the closure runs",
 			"Discard is not deferred on the begun transaction before the closure runs")
 	}
-	// Discard: guarded by !discarded, sets discarded
-	guardFlag := func(f *ssa.Function, flag *types.Var, effect func(ssa.Instruction) bool, what string) {
+	// exactly-once: the effect is guarded by a boolean flag of the transaction that is not yet set, and sets it afterwards
+	var boolFlags []*types.Var
+	if tn := p.Named("", "Txn"); tn != nil {
+		if st, ok := tn.Underlying().(*types.Struct); ok {
+			for i := 0; i < st.NumFields(); i++ {
+				if bt, ok := st.Field(i).Type().Underlying().(*types.Basic); ok && bt.Kind() == types.Bool {
+					boolFlags = append(boolFlags, st.Field(i))
+				}
+			}
+		}
+	}
+	guardFlag := func(f *ssa.Function, effect func(ssa.Instruction) bool, what string) {
 		fn := p.FnName(f)
 		n := 0
 		eachInstr(f, func(ins ssa.Instruction) {
@@ -569,28 +585,29 @@ func runSnapDone(c *Ctx, r *RuleRun) {
 				return
 			}
 			n++
-			g := boolFactIs(ins, func(v ssa.Value) bool { return isLoadOfField(v, flag) }, false)
-			r.Check(g, fn, what+" guarded by flag", p.Pos(instrPos(ins)), "only when the flag is not yet set", what+" is not guarded by its done-flag: it can run twice for one transaction")
-			set := false
-			for _, st := range storesToField(f, flag) {
-				if isConstBool(st.Val, true) {
-					q := PathQuery{P: p, Fn: f, Starts: []ssa.Instruction{ins}, Avoid: func(i ssa.Instruction) bool { return i == ssa.Instruction(st) }, Target: isReturn}
-					if q.FindPath() == nil {
-						set = true
+			good := false
+			for _, flag := range boolFlags {
+				g := boolFactIs(ins, func(v ssa.Value) bool { return isLoadOfField(v, flag) }, false)
+				if !g {
+					continue
+				}
+				for _, st := range storesToField(f, flag) {
+					if isConstBool(st.Val, true) {
+						q := PathQuery{P: p, Fn: f, Starts: []ssa.Instruction{ins}, Avoid: func(i ssa.Instruction) bool { return i == ssa.Instruction(st) }, Target: isReturn}
+						if q.FindPath() == nil {
+							good = true
+						}
 					}
 				}
 			}
-			r.Check(set, fn, what+" sets flag", p.Pos(instrPos(ins)), "the flag is set on every path after it", what+" does not set its done-flag afterwards: a second call repeats it")
+			r.Check(good, fn, what+" exactly once", p.Pos(instrPos(ins)), "guarded by a done-flag of the transaction that is set on every path afterwards",
+				what+" is not guarded by a done-flag that it sets afterwards: it runs twice for a transaction that commits (once in newCommitTs, once from Discard), the read watermark passes transactions that are still open and their versions/conflict records are discarded")
 		})
 		if n == 0 {
 			r.Undecided(fn, what, p.Pos(f.Pos()), "effect not found")
 		}
 	}
-	guardFlag(a.doneRead, a.fDoneRead, markCalls(p, a.fReadMark, "Done"), "readMark.Done")
-	guardFlag(a.discard, a.fDiscarded, func(ins ssa.Instruction) bool {
-		call, ok := ins.(*ssa.Call)
-		return ok && callTo(p, call, a.doneRead) != nil
-	}, "doneRead")
+	guardFlag(a.doneRead, markCalls(p, a.fReadMark, "Done"), "readMark.Done")
 }
 
 func runSerSection(c *Ctx, r *RuleRun) {
@@ -1224,6 +1241,73 @@ func runTraceMisuse(c *Ctx, r *RuleRun) {
 		}
 	}
 	r.Check(okc, p.FnName(cf), "guard discarded", p.Pos(cf.Pos()), "a finished transaction never reaches validation", "Commit of a finished transaction reaches validation/apply")
+	// a finished transaction is marked finished: Discard sets `discarded` on every path on which it is not already set,
+	// and Commit reaches Discard on every path past its first check
+	{
+		df := a.discard
+		sets := func(i ssa.Instruction) bool {
+			st, ok := i.(*ssa.Store)
+			if !ok {
+				return false
+			}
+			fv, _ := fieldOfAddr(st.Addr)
+			return fv == a.fDiscarded && isConstBool(st.Val, true)
+		}
+		edgeOK := func(b *ssa.BasicBlock, i int) bool {
+			iff, ok := b.Instrs[len(b.Instrs)-1].(*ssa.If)
+			if !ok {
+				return true
+			}
+			cm := canonCond(iff.Cond, i == 0)
+			return !(cm.Y == nil && cm.Op == "true" && isLoadOfField(cm.X, a.fDiscarded))
+		}
+		q := PathQuery{P: p, Fn: df, Avoid: sets, EdgeOK: edgeOK, Target: isReturn}
+		w := q.FindPath()
+		r.Check(w == nil, p.FnName(df), "Discard marks the transaction finished", p.Pos(df.Pos()), "every return leaves discarded == true",
+			"Discard can return without marking the transaction finished: a committed or discarded transaction keeps accepting Set/Commit, and a second Commit re-applies its stale write set")
+		isDiscard := func(i ssa.Instruction) bool {
+			ci, ok := i.(ssa.CallInstruction)
+			if !ok {
+				return false
+			}
+			for _, g := range p.Callees(ci) {
+				if g == df {
+					return true
+				}
+			}
+			return false
+		}
+		// start after the discarded pre-check: from the first instruction on the not-discarded edge
+		var starts []ssa.Instruction
+		for _, b := range cf.Blocks {
+			if len(b.Instrs) == 0 {
+				continue
+			}
+			if iff, ok := b.Instrs[len(b.Instrs)-1].(*ssa.If); ok {
+				cm := canonCond(iff.Cond, true)
+				if cm.Y == nil && isLoadOfField(cm.X, a.fDiscarded) {
+					idx := 1
+					if cm.Op == "false" {
+						idx = 0
+					}
+					if len(b.Succs[idx].Instrs) > 0 {
+						starts = append(starts, b.Succs[idx].Instrs[0])
+					}
+				}
+			}
+		}
+		if len(starts) > 0 {
+			first := starts[0]
+			if isDiscard(first) {
+				r.Hold(p.FnName(cf), "Commit finishes the transaction", p.Pos(cf.Pos()), "Discard on every path")
+			} else {
+				q2 := PathQuery{P: p, Fn: cf, Starts: []ssa.Instruction{first}, Avoid: isDiscard, Target: isReturn}
+				w2 := q2.FindPath()
+				r.Check(w2 == nil, p.FnName(cf), "Commit finishes the transaction", p.Pos(cf.Pos()), "every return past the first check is preceded by (a deferred) Discard",
+					"Commit can return without discarding the transaction: it stays usable after it was committed or refused")
+			}
+		}
+	}
 	// View/Update after Close
 	errClosed := p.Global("", "ErrDBClosed")
 	stateFn := p.Fn("", "DB", "State")
